@@ -377,6 +377,13 @@ Definition guard_impls_pinned_b : bool :=
                   | None => false
                   end) guard_impl_hashes.
 
+(** the registered (process-wide) contract objects are created empty: no field set.  The unguarded
+    contract-to-contract entry points HandleIBTPData / EmitInterchain / InvokeReceipt (Defect rows 12, 14, 16) are
+    unreachable only because the registered InterchainManager has NO service cache (the lookup dies, the call is
+    reverted); an object registered with its fields wired re-opens them *)
+Definition registered_plain_b : bool :=
+  forallb (fun e : string * list (string * string) => match snd e with [] => true | _ => false end) contract_inits.
+
 (** * Defect flags *)
 Record cfg := {
   d_dispatch_all : bool;      (* InvokeBVM dispatches every method of the reflect method set: promoted ones and ones without *Response *)
@@ -715,3 +722,28 @@ Definition register_res (canon : bool) (c : N) (admins : list acct) (r : reserva
 
 Definition free_res (canon : bool) (admins : list acct) (r : reservations) : reservations :=
   fold_left (fun acc a => aremove acct_eqb (occ_key canon a) acc) admins r.
+
+(** * Whose service is it?  Ids that contain the separator
+    Appchain ids are free-form (RegisterAppchain refuses only ""), a service id is <appchain id>:<service id>.  The
+    PermissionSelf checks of the service manager take the appchain from the STORED service record; taking the text
+    before the first ':' instead ([by_segment]) names another appchain as soon as an appchain id contains ':'. *)
+Definition colon : Ascii.ascii := Ascii.ascii_of_nat 58.
+Fixpoint first_seg (s : string) : string :=
+  match s with
+  | EmptyString => EmptyString
+  | String c t => if Ascii.eqb c colon then EmptyString else String c (first_seg t)
+  end.
+Fixpoint has_colon (s : string) : bool :=
+  match s with EmptyString => false | String c t => Ascii.eqb c colon || has_colon t end.
+
+(** stored service records: service id -> appchain id; admins: appchain id -> its admin *)
+Definition self_chain (by_segment : bool) (recs : list (string * string)) (sid : string) : option string :=
+  match alookup String.eqb sid recs with
+  | None => None                                   (* no such service: refused before the check *)
+  | Some ch => Some (if by_segment then first_seg sid else ch)
+  end.
+Definition passes_self (by_segment : bool) (recs : list (string * string)) (admins : list (string * N)) (sid : string) (caller : N) : bool :=
+  match self_chain by_segment recs sid with
+  | None => false
+  | Some ch => match alookup String.eqb ch admins with Some a => (a =? caller)%N | None => false end
+  end.
